@@ -271,7 +271,11 @@ def lemmas(props=None):
     out = []
     # C06/injective: for aliases that do not contain " args=", and encodings of lists forming a prefix-free set (A1: a JSON array text is
     # self-delimiting), equal keys imply equal alias, equal encoded positional part and equal encoded keyword part.
-    lays = key_layouts(); pre_texts = []
+    try:
+        lays = key_layouts()
+    except Exception:               # noqa  the unit itself reports why it could not run (undecided); the lemma falls back to the pinned template
+        lays = {None}
+    pre_texts = []
     if len(lays) != 1 or None in lays:
         # not one constant layout: the exact template of the pinned commit was demanded by the unit instead; the lemma is stated over that template
         lays = {(('lit', 'input: '), 'alias', ('lit', ' args='), 'args', ('lit', ', kwargs='), 'kwargs')}
